@@ -291,7 +291,7 @@ func (h *HttpServer) handleStreamInit(w http.ResponseWriter, r *http.Request) {
 		if err == nil && !finished {
 			// Batch limit reached — append continuation token
 			token, tokenErr := h.packCursorToken(callID, state, auth)
-			callToken, callErr := h.packCallToken(callID, outputSchema, auth, streamID)
+			callToken, callErr := h.packCallTokenFor(method, callID, outputSchema, auth, streamID)
 			if tokenErr != nil {
 				handlerErr = tokenErr
 			} else if callErr != nil {
@@ -314,7 +314,7 @@ func (h *HttpServer) handleStreamInit(w http.ResponseWriter, r *http.Request) {
 			h.writeHttpError(w, http.StatusInternalServerError, err, nil)
 			return
 		}
-		callToken, err := h.packCallToken(callID, outputSchema, auth, streamID)
+		callToken, err := h.packCallTokenFor(method, callID, outputSchema, auth, streamID)
 		if err != nil {
 			h.writeHttpError(w, http.StatusInternalServerError, err, nil)
 			return
@@ -492,6 +492,40 @@ func (h *HttpServer) handleStreamExchange(w http.ResponseWriter, r *http.Request
 		return
 	}
 
+	// A token resumes only the method whose /init minted it. The state's Go
+	// type cannot stand in for that: two methods may share a state type, and
+	// a foreign state handed to this method's rehydrate / cancel / produce /
+	// exchange code is exactly what must not happen. Refused here, as a
+	// client error like any other invalid token, before any of that code or
+	// the dispatch hook runs.
+	if call.Method != method {
+		h.writeHttpError(w, http.StatusBadRequest, &RpcError{Type: "RuntimeError",
+			Message: fmt.Sprintf("State token was not issued for method '%s'", method)}, nil)
+		return
+	}
+
+	// Determine mode from the registered method type (for MethodDynamic, from
+	// the concrete state type). The assertions are checked: a state that does
+	// not implement the interface this route needs is an invalid token, not a
+	// reason to panic out of the HTTP exchange.
+	var producerState ProducerState
+	var exchangeState ExchangeState
+	isProducer := info.Type == MethodProducer
+	if info.Type == MethodDynamic {
+		_, isProducer = tokenData.State.(ProducerState)
+	}
+	var stateOK bool
+	if isProducer {
+		producerState, stateOK = tokenData.State.(ProducerState)
+	} else {
+		exchangeState, stateOK = tokenData.State.(ExchangeState)
+	}
+	if !stateOK {
+		h.writeHttpError(w, http.StatusBadRequest,
+			&RpcError{Type: "RuntimeError", Message: "Malformed state token"}, nil)
+		return
+	}
+
 	// Rehydrate non-serializable fields if a callback is registered
 	if h.rehydrateFunc != nil {
 		if err := h.rehydrateFunc(tokenData.State, method); err != nil {
@@ -543,18 +577,6 @@ func (h *HttpServer) handleStreamExchange(w http.ResponseWriter, r *http.Request
 	}
 	stickySinkForCtx := stickyCleanup.sink
 
-	// Determine mode: for MethodDynamic, check the concrete state type
-	var isProducer bool
-	if info.Type == MethodDynamic {
-		if _, ok := tokenData.State.(ProducerState); ok {
-			isProducer = true
-		} else {
-			isProducer = false
-		}
-	} else {
-		isProducer = info.Type == MethodProducer
-	}
-
 	// For dynamic methods, OutputSchema is not set at registration time —
 	// recover it from the serialized schema stored in the state token.
 	var outputSchema *arrow.Schema
@@ -578,9 +600,9 @@ func (h *HttpServer) handleStreamExchange(w http.ResponseWriter, r *http.Request
 	}
 
 	if isProducer {
-		handlerErr = h.handleProducerContinuation(ctx, w, outputSchema, tokenData.State.(ProducerState), info, stats, auth, transportMeta, cookies, streamID, tokenData.CallID, stickySinkForCtx, inputMeta)
+		handlerErr = h.handleProducerContinuation(ctx, w, outputSchema, producerState, info, stats, auth, transportMeta, cookies, streamID, tokenData.CallID, stickySinkForCtx, inputMeta)
 	} else {
-		handlerErr = h.handleExchangeCall(ctx, w, inputBatch, inputMeta, outputSchema, tokenData.State.(ExchangeState), info, stats, auth, transportMeta, cookies, streamID, tokenData.CallID, stickySinkForCtx)
+		handlerErr = h.handleExchangeCall(ctx, w, inputBatch, inputMeta, outputSchema, exchangeState, info, stats, auth, transportMeta, cookies, streamID, tokenData.CallID, stickySinkForCtx)
 	}
 }
 
